@@ -28,6 +28,37 @@ pub unsafe extern "C" fn clock_gettime(clk: libc::clockid_t, ts: *mut libc::time
   }
 }
 
+// std::thread::sleep (the loop's back-off after repeated interruptions) runs on the same clock: while the virtual
+// clock is on, a sleep advances it by the requested time and returns at once.
+static SLEEPS: AtomicU64 = AtomicU64::new(0);
+static SLEPT_NS: AtomicU64 = AtomicU64::new(0);
+
+unsafe fn virtual_sleep(req: *const libc::timespec) {
+  let ns = ((*req).tv_sec.max(0) as u64).saturating_mul(1_000_000_000).saturating_add((*req).tv_nsec.max(0) as u64);
+  SLEEPS.fetch_add(1, Ordering::Relaxed);
+  SLEPT_NS.fetch_add(ns, Ordering::Relaxed);
+  VIRT_NS.fetch_add(ns, Ordering::Relaxed);
+}
+
+#[cfg(not(miri))]
+#[no_mangle]
+pub unsafe extern "C" fn nanosleep(req: *const libc::timespec, rem: *mut libc::timespec) -> libc::c_int {
+  if VIRT_ON.load(Ordering::Relaxed) && !req.is_null() { virtual_sleep(req); return 0; }
+  libc::syscall(libc::SYS_nanosleep, req, rem) as libc::c_int
+}
+
+#[cfg(not(miri))]
+#[no_mangle]
+pub unsafe extern "C" fn clock_nanosleep(clk: libc::clockid_t, flags: libc::c_int, req: *const libc::timespec, rem: *mut libc::timespec) -> libc::c_int {
+  if VIRT_ON.load(Ordering::Relaxed) && !req.is_null() && flags == 0 { virtual_sleep(req); return 0; }
+  // (clock_nanosleep reports failure through its return value, not errno)
+  let r = libc::syscall(libc::SYS_clock_nanosleep, clk as libc::c_long, flags as libc::c_long, req, rem);
+  if r < 0 { *libc::__errno_location() } else { 0 }
+}
+
+pub fn sleeps() -> u64 { SLEEPS.load(Ordering::Relaxed) }
+pub fn slept_ns() -> u64 { SLEPT_NS.load(Ordering::Relaxed) }
+
 pub fn enable(start_ns: u64) {
   VIRT_NS.store(start_ns, Ordering::Relaxed);
   VIRT_ON.store(true, Ordering::Relaxed);
@@ -55,7 +86,14 @@ pub fn self_test() -> bool {
   let b = std::time::Instant::now();
   disable();
   let d = b.duration_since(a);
-  d == std::time::Duration::from_nanos(1_234_567_000)
+  // and std::thread::sleep must run on it as well (3 virtual hours here)
+  enable(5_000_000_000);
+  let s0 = sleeps();
+  let c = std::time::Instant::now();
+  std::thread::sleep(std::time::Duration::from_secs(10_800));
+  let e = std::time::Instant::now();
+  disable();
+  d == std::time::Duration::from_nanos(1_234_567_000) && sleeps() == s0 + 1 && e.duration_since(c) == std::time::Duration::from_secs(10_800)
 }
 
 pub fn real_now_ns() -> u64 {
